@@ -217,6 +217,50 @@ def run_spec(p, res):
                             v(clause, f"sigma2={s2} ({form}): received {y:.4f} bit {j}: LLR={lj:.6g}, expected c*(d1^2-d0^2)/sigma^2 = {base:.4g}*({d1:.5g}-{d0:.5g})/{s2} = {want:.6g}", {"y": [y.real, y.imag], "s2": s2, "bit": j})
             if nbad:
                 res.bump("wrong_llrs", nbad)
+    # per-symbol noise variances that DIFFER from symbol to symbol (1-D of N values, and a (2,N) batch with one row of variances broadcast /
+    # a full (2,N) tensor): symbol i's LLRs are scaled by ITS variance
+    t1, _ = present(Ys, "1d")
+    if base is not None and t1.dim() == 1 and t1.shape[0] == len(dps) and kind != "differential":
+        cyc = [0.05, 1.0, 10.0, 0.3, 2.5]
+        N = t1.shape[0]
+        s2s = [cyc[(3 * i + i // 5) % len(cyc)] for i in range(N)]
+        nv1 = torch.tensor(s2s, dtype=torch.float32)
+        forms = [("per-symbol-varying 1-D", t1, nv1, s2s)]
+        t2 = torch.stack([t1, torch.flip(t1, [0])])
+        forms.append(("per-symbol-varying (N,) on a (2,N) batch", t2, nv1, s2s + s2s[::1]))
+        forms.append(("per-symbol-varying (2,N)", t2, torch.stack([nv1, torch.flip(nv1, [0])]), s2s + s2s))
+        for fname, tt, nv, _ in forms:
+            try:
+                if hasattr(dem, "reset_state"):
+                    dem.reset_state()
+                out = dem(tt, nv)
+            except Exception:  # noqa: BLE001
+                res.rejected += 1      # declining a noise-variance layout is allowed
+                continue
+            res.transitions += 1
+            llr = out.reshape(-1, b).to(torch.float64).tolist()
+            if len(llr) != tt.numel():
+                v("per-symbol", f"{fname}: {tt.numel()} symbols but {len(llr)} LLR groups (shape {tuple(out.shape)})")
+                continue
+            # row 0 is t1 with variances s2s; row 1 (if any) is t1 reversed, with the variances of that row of nv (broadcast: s2s; full: reversed)
+            rows = [(list(range(N)), s2s)]
+            if tt.dim() == 2:
+                rows.append((list(range(N - 1, -1, -1)), s2s if nv.dim() == 1 else s2s[::-1]))
+            if kind in ("alternating", "offset") and tt.dim() == 2:
+                rows = rows[:1]        # the reversed row is another symbol stream for schemes with memory: only the first row has a reference
+            nbad = 0
+            for r, (idx, var) in enumerate(rows):
+                for pos, (i, s2i) in enumerate(zip(idx, var)):
+                    (y, tab), R = dps[i], ref[i]
+                    L = llr[r * N + pos]
+                    for j, (lj, (d0, d1)) in enumerate(zip(L, R)):
+                        res.ev(1, nontrivial=1 if abs(d1 - d0) > 1e-3 * scale2 else 0, transitions=0)
+                        want = base * (d1 - d0) / s2i
+                        tol = base * (1e-4 * (d0 + d1) + 1e-6) / s2i
+                        if not math.isfinite(lj) or abs(lj - want) > tol:
+                            nbad += 1
+                            if nbad == 1:
+                                v("per-symbol", f"{fname}: symbol {pos} of row {r} (received {y:.4f}, its sigma2={s2i}) bit {j}: LLR={lj:.6g}, expected {want:.6g}", {"form": fname, "pos": pos, "bit": j})
     # alternating schemes: in training mode the demodulator carries the rotation state from call to call; after a block with an odd number
     # of symbols the next block is decided against the continued alternation (hard decisions nearest on that constellation)
     if kind == "alternating":
